@@ -151,6 +151,45 @@ class H:
     def bools(self, name, shape):
         return self._arr(name, shape, self.bool, rnp.bool_)
 
+    # ---- symbolic-length inputs (unbounded mode)
+    def length(self, name):
+        """a symbolic array length (>= 0); concrete on replay"""
+        if self.mode == "sym":
+            from . import larr
+
+            return SNum(larr.sym_length(name))
+        return int(self.model[name])
+
+    def _larr(self, name, N, rest, kind, dtype):
+        if isinstance(rest, int):
+            rest = (rest,)
+        if self.mode == "sym":
+            from . import larr
+
+            return larr.make_input(name, N.t, tuple(rest), kind)
+        vals = self.model.get(name)
+        if vals is None:
+            raise ReplayInvalid("model has no array %s" % name)
+        return rnp.array(vals, dtype=dtype).reshape((int(N),) + tuple(rest))
+
+    def lreals(self, name, N, rest=()):
+        return self._larr(name, N, rest, "real", rnp.float64)
+
+    def lints(self, name, N, rest=()):
+        return self._larr(name, N, rest, "int", rnp.int64)
+
+    def lbools(self, name, N, rest=()):
+        return self._larr(name, N, rest, "bool", rnp.bool_)
+
+    def forall(self, N, fn):
+        """fn(i) for every row index i < N: the generic (skolem) row symbolically, every
+        row on replay"""
+        if self.mode == "sym":
+            from . import larr
+
+            return self.all(fn(SNum(larr.index_for(N.t))))
+        return all(bool(self.all(fn(i))) for i in range(int(N)))
+
     def const(self, x):
         """a concrete array as the function would receive it"""
         return x
@@ -441,6 +480,26 @@ def _angles_from_trig(model, ctx_, vals):
     return vals
 
 
+def _larr_values(model, ctx_, vals):
+    for name, (f, N, rest, kind) in ctx_.memo.get("larr_inputs", {}).items():
+        n = model.eval(N, model_completion=True)
+        n = n.as_long() if z3.is_int_value(n) else 0
+        if n > 64:
+            vals[name] = None
+            continue
+        out = rnp.zeros((n,) + tuple(rest), dtype=object)
+        for k in rnp.ndindex(*out.shape):
+            mv = model.eval(f(*[z3.IntVal(int(i)) for i in k]), model_completion=True)
+            if z3.is_true(mv) or z3.is_false(mv):
+                out[k] = z3.is_true(mv)
+            elif z3.is_int_value(mv):
+                out[k] = mv.as_long()
+            else:
+                out[k] = _mv_float(model, mv)
+        vals[name] = out.tolist()
+    return vals
+
+
 def _model_values(model, inputs):
     vals = {}
     for name, v in inputs.items():
@@ -478,6 +537,40 @@ def replay_concrete(contract, model_vals, findings=None):
         return {"status": "exception", "detail": "%s: %s" % (type(e).__name__, e), "failed": ["no-unexpected-exception"], "exc_type": type(e).__name__}
     failed = [n for n, ok in h.results if not ok]
     return {"status": "fail" if failed else "pass", "failed": failed, "detail": ""}
+
+
+def _sample_witness(contract, ctx_, clause, findings, tries=40):
+    import random
+
+    rnd = random.Random(int(os.environ.get("VERIF_SEED", "0") or 0) + 7)
+    larrs = ctx_.memo.get("larr_inputs", {})
+    lengths = {str(N) for (_, N, _, _) in larrs.values()}
+    for t in range(tries):
+        vals = {}
+        scale = [1.0, 3.0, 0.25, 10.0][t % 4]
+        for name, v in ctx_.inputs.items():
+            if name in lengths:
+                vals[name] = 1 + (t % 3)
+            elif v.sort() == z3.IntSort():
+                vals[name] = rnd.randint(-3, 3)
+            elif v.sort() == z3.BoolSort():
+                vals[name] = rnd.random() < 0.5
+            else:
+                vals[name] = round(rnd.uniform(-scale, scale), 3)
+        for name, (f, N, rest, kind) in larrs.items():
+            n = vals.get(str(N), 1)
+            shape = (n,) + tuple(rest)
+            if kind == "real":
+                arr = [round(rnd.uniform(-scale, scale), 3) for _ in range(int(rnp.prod(shape, dtype=int)))]
+            elif kind == "int":
+                arr = [rnd.randint(0, 3) for _ in range(int(rnp.prod(shape, dtype=int)))]
+            else:
+                arr = [rnd.random() < 0.5 for _ in range(int(rnp.prod(shape, dtype=int)))]
+            vals[name] = rnp.array(arr, dtype=object).reshape(shape).tolist()
+        rr = replay_concrete(contract, vals, findings)
+        if rr["status"] in ("fail", "exception") and (clause in rr["failed"]):
+            return {"inputs": vals, "replay": rr, "found_by": "sampling after the solver model did not replay"}
+    return None
 
 
 def _bounds_for(inputs, k):
@@ -550,7 +643,9 @@ def run_contract(contract, tier="quick", findings=None, want_sample=False):
                 pass
             else:
                 obls.append(("no-unexpected-exception", z3.BoolVal(False), len(c.pc)))
-                res.setdefault("exceptions", []).append("%s: %s" % (type(p.exc).__name__, str(p.exc)[:200]))
+                tbs = traceback.extract_tb(p.exc.__traceback__)
+                loc = " <- ".join("%s:%d" % (f.filename.rsplit("/", 1)[-1], f.lineno) for f in reversed(tbs[-3:]))
+                res.setdefault("exceptions", []).append("%s: %s @ %s" % (type(p.exc).__name__, str(p.exc)[:200], loc))
         for name, goal, npc in obls:
             if time.time() - t_start > budget_s:
                 res["undecided"].append({"obligation": contract.id + "/" + name, "reason": "contract budget of %ds exhausted" % budget_s})
@@ -578,6 +673,8 @@ def run_contract(contract, tier="quick", findings=None, want_sample=False):
             # sat: counterexample -> replay on the real code
             a["status"] = "violated"
             viol = {"obligation": contract.id + "/" + name, "path": pi, "solver": backend}
+            if name == "no-unexpected-exception":
+                viol["exception"] = res.get("exceptions", [""])[-1]
             tried = []
             replayed = None
             try:
@@ -586,7 +683,7 @@ def run_contract(contract, tier="quick", findings=None, want_sample=False):
                 model = None
             k = 0
             while model is not None and k < 6:
-                vals = _angles_from_trig(model, c, _model_values(model, c.inputs))
+                vals = _larr_values(model, c, _angles_from_trig(model, c, _model_values(model, c.inputs)))
                 rr = replay_concrete(contract, vals, findings)
                 tried.append({"inputs": vals, "replay": rr})
                 if rr["status"] in ("fail", "exception") and (name in rr["failed"] or rr["failed"]):
@@ -602,6 +699,12 @@ def run_contract(contract, tier="quick", findings=None, want_sample=False):
                 if str(s3.check()) != "sat":
                     break
                 model = s3.model()
+            if replayed is None:
+                # the solver's model may be tied to abstractions (opaque sums, witness rows,
+                # trig pairs): search a concrete failing input for the same clause by sampling
+                replayed = _sample_witness(contract, c, name, findings)
+                if replayed is not None:
+                    tried.append(replayed)
             viol["replayed"] = replayed is not None
             viol["witness"] = replayed or (tried[0] if tried else None)
             viol["models_tried"] = len(tried)
